@@ -37,7 +37,7 @@ THEOREMS = [
     'Emg.runTrace_add', 'Emg.step_add', 'Emg.mg_error_propagation',
     'Emg.mg_error_propagation_phys', 'Emg.residual_add', 'Emg.restrict_add',
     'Emg.prolong_add', 'Emg.smoothingC_add', 'Emg.coarseLvl_add',
-    'Emg.runTrace_fixed', 'Emg.mgRun_fixed_phys', 'Emg.solution_unique_phys',
+    'Emg.runTrace_fixed', 'Emg.mgRun_fixed_phys', 'Emg.mgRun_fixed_exact_phys', 'Emg.solution_unique_phys',
     'Emg.allInj_phys', 'Emg.Phys.reach',
 ]
 
